@@ -36,7 +36,9 @@
 //! Protocol level: every `manual sched` round and every `manual warm` records the value-level trace of the hooked
 //! atomics with the begin / end of every thread operation (`@tr=`), the limit cell and the in-flight cell being the ones
 //! `limit()` / `in_flight()` load; the model's verified checker confirms or refutes the claim `trace-ok`.
-use crate::mw_limit::{build_algorithm, lat_ns, parse_prog, render_outs, run_prog_traced, trace_text, traced_sequential, FOp};
+use crate::mw_limit::{
+    build_algorithm, lat_ns, log_protocol, parse_prog, render_outs, run_prog_traced, trace_text, traced_sequential, FOp,
+};
 use crate::sched::{atrace_push, atrace_take, observe_here, probe_cell, run_scheduled_with, unobserve_here};
 use crate::world::*;
 use std::collections::{BTreeMap, BTreeSet, VecDeque};
@@ -476,7 +478,8 @@ impl<A: Alg> Mw for Adapter<A> {
                 let o = traced_sequential(self.svc(k).algorithm(), &parse_prog(&kv.str("prog", "")));
                 log(format!("warm {}", render_outs(&o)));
                 log(format!("limit {}", self.svc(k).limit()));
-                log("trace-ok".to_string());
+                let l = self.svc(k).limit();
+                log_protocol(&[o], l, None);
             }
             "thread" => {
                 let t = kv.u64("t", 0) as usize;
@@ -487,8 +490,7 @@ impl<A: Alg> Mw for Adapter<A> {
                 progs[t] = kv.str("prog", "");
             }
             "sched" => {
-                let schedule: Vec<usize> =
-                    kv.str("s", "").split(',').filter(|x| !x.is_empty()).filter_map(|x| x.parse().ok()).collect();
+                let schedule: Vec<usize> = crate::sched::parse_schedule(&kv.str("s", ""));
                 let mut bodies: Vec<Box<dyn FnOnce() -> Vec<String> + Send>> = Vec::new();
                 let mut lefts = Vec::new();
                 let _ = atrace_take();
@@ -515,9 +517,11 @@ impl<A: Alg> Mw for Adapter<A> {
                     }
                 }
                 unobserve_here();
+                let ic_found = ic.is_some();
                 obs("tr", trace_text(lc, ic));
                 log(format!("limit {}", self.svc(k).limit()));
-                log("trace-ok".to_string());
+                let (l, n) = (self.svc(k).limit(), self.svc(k).in_flight());
+                log_protocol(&outs, l, if ic_found { Some(n) } else { None });
             }
             _ => {}
         }
